@@ -398,6 +398,12 @@ enum Step {
     /// next to parked write buffers, a disconnect next to an accept.  Emissions and describes are limited to
     /// the free room of the channel at that moment (the held thread cannot drain it).
     Round { steps: Vec<Step> },
+    /// THE EMITTERS GO QUIET: everything emitted so far has been handled by the transport thread (settle), no
+    /// further emission follows for now, pending injected faults are forgotten, and (`unstall`) every open client
+    /// starts reading.  Every connected, reading client must then come to hold everything that was fanned out
+    /// to it -- without any later fan-out coming to the rescue (the sockets are registered edge-triggered: a
+    /// frame parked for any other reason than a refusing socket is never looked at again).
+    Quiet { unstall: bool },
 }
 
 const UNITS: &[Unit] = &[Unit::Count, Unit::Percent, Unit::Seconds, Unit::Nanoseconds, Unit::Bytes, Unit::BitsPerSecond];
@@ -469,6 +475,24 @@ fn gen_faults_n(r: &mut Rng, lo: usize, hi: usize) -> Vec<Fault> {
         .collect()
 }
 
+/// faults for the LAST frames before a silence.  `Interrupted` is the only injected fault that is faithful to a
+/// kernel without a full socket (EINTR can hit any write), so it dominates; injected `WouldBlock` / short writes
+/// leave a frame parked behind a socket that is not full (no WRITABLE edge will follow: an artefact of the
+/// injection, recognised from the trace and excused by the quiet oracle) and are mixed in to keep that path alive.
+fn gen_tail_faults(r: &mut Rng) -> Vec<Fault> {
+    match r.below(6) {
+        0 | 1 | 2 => (0..r.range(1, 3)).map(|_| Fault::Interrupted).collect(),
+        3 => {
+            // interrupted retries in between short writes that are followed by more data-carrying writes
+            let mut v = vec![Fault::Interrupted];
+            v.extend(gen_faults_n(r, 1, 2));
+            v.push(Fault::Interrupted);
+            v
+        }
+        _ => gen_faults_n(r, 1, 4),
+    }
+}
+
 fn gen_script(r: &mut Rng, storm: bool) -> Vec<Step> {
     let mut g = Gen::new(r);
     let mut s = vec![];
@@ -499,7 +523,7 @@ fn gen_script(r: &mut Rng, storm: bool) -> Vec<Step> {
     }
     let n = r.range(4, 14);
     for _ in 0..n {
-        match r.weighted(&[2, 2, 6, 3, 2, 2, 5, 1, 1, 2, 2, 1, 1, 4, 2]) {
+        match r.weighted(&[2, 2, 6, 3, 2, 2, 5, 1, 1, 2, 2, 1, 1, 4, 2, 3]) {
             13 => {
                 // one poll round: a describe or a connect makes the thread run, then it is held before its poll
                 // while connects / describes / emissions / disconnects pile up for ONE poll call
@@ -539,6 +563,15 @@ fn gen_script(r: &mut Rng, storm: bool) -> Vec<Step> {
                     s.push(Step::Settle);
                 }
                 s.push(Step::Round { steps: vec![describe(r), Step::Emit { items: g.items(r, 2, 9) }] });
+            }
+            15 => {
+                // the last frames before the emitters go quiet meet write faults; nothing is emitted afterwards
+                // (until the script goes on), so only the exporter's own retry / a genuine WRITABLE edge can
+                // deliver them
+                s.push(Step::Settle);
+                s.push(Step::Inject { c: r.below(nclients), faults: gen_tail_faults(r) });
+                s.push(Step::Emit { items: g.items(r, 1, 4) });
+                s.push(Step::Quiet { unstall: r.chance(1, 3) });
             }
             9 => s.push(Step::HalfClose { c: r.below(nclients) }),
             10 => s.push(Step::Send { c: r.below(nclients), n: *r.pick(&[1usize, 1, 7, 300, 5000]) }),
@@ -589,6 +622,14 @@ fn gen_script(r: &mut Rng, storm: bool) -> Vec<Step> {
         }
         g.big = false;
         s.push(Step::Emit { items: g.items(r, 1, 4) });
+    } else if r.chance(1, 2) {
+        // the session's last batch meets write faults; the end-of-session quiet check follows it
+        s.push(Step::Settle);
+        s.push(Step::Inject { c: r.below(nclients), faults: gen_tail_faults(r) });
+        if r.chance(1, 3) {
+            s.push(Step::Inject { c: r.below(nclients), faults: gen_tail_faults(r) });
+        }
+        s.push(Step::Emit { items: g.items(r, 1, 5) });
     }
     s
 }
@@ -758,6 +799,49 @@ fn corpus_raw(d: &dyn Fn(&str) -> Step, em: &dyn Fn(std::ops::Range<u64>) -> Ste
             "accept-close-and-batch-in-one-poll-round",
             Some(1),
             vec![d("m"), Step::Connect { staller: false }, Step::Connect { staller: false }, Step::Round { steps: vec![Step::Connect { staller: false }, Step::Reset { c: 0 }, em(0..1), Step::Connect { staller: false }] }, em(1..2)],
+        ),
+        (
+            // seed C11-8 class: the write of the last frame before a silence is interrupted; the client reads
+            "interrupted-last-frame-then-silence",
+            Some(16),
+            vec![Step::Connect { staller: false }, em(0..1), Step::Inject { c: 0, faults: vec![Fault::Interrupted] }, em(1..2), Step::Quiet { unstall: false }, em(2..3)],
+        ),
+        (
+            "interrupted-last-batch-then-silence-no-limit",
+            None,
+            vec![
+                d("m"),
+                Step::Connect { staller: false },
+                Step::Connect { staller: false },
+                Step::Inject { c: 0, faults: vec![Fault::Interrupted, Fault::Interrupted, Fault::Interrupted] },
+                Step::Round { steps: vec![d("n"), em(0..3)] },
+                Step::Quiet { unstall: false },
+            ],
+        ),
+        (
+            "interrupted-retry-of-a-parked-remainder-then-silence",
+            Some(8),
+            vec![
+                Step::Connect { staller: false },
+                Step::Inject { c: 0, faults: vec![Fault::Accept(3)] },
+                em(0..1),
+                Step::Inject { c: 0, faults: vec![Fault::Interrupted, Fault::Interrupted] },
+                em(1..2),
+                Step::Quiet { unstall: false },
+            ],
+        ),
+        (
+            // the kernel's own refusals on the last frames (a client that does not read, 3 x 20 KB), then silence,
+            // then the client starts reading: the WRITABLE edge alone has to bring the parked rest and the queue
+            "staller-reads-after-the-last-frame",
+            Some(8),
+            vec![
+                Step::Connect { staller: true },
+                Step::Connect { staller: false },
+                Step::Emit { items: (0..3u64).map(|i| Item { name: "big".to_string(), labels: vec![("#".to_string(), (200 + i).to_string()), ("pad".to_string(), "z".repeat(20_000))], op: 4, bits: i, held: None }).collect() },
+                em(0..2),
+                Step::Quiet { unstall: true },
+            ],
         ),
         ("large-buffer", Some(1 << 16), vec![d("m"), Step::Connect { staller: false }, Step::Connect { staller: true }, em(0..40), Step::Close { c: 1 }, em(40..60)]),
     ]
@@ -1068,6 +1152,167 @@ fn do_close(cl: &mut Client, reset: bool, si: usize, log: &Log) {
     }
 }
 
+/// identity of an emission as it appears on the wire: name, labels (and the value for long-lived handles,
+/// whose emissions share their key)
+fn ident_of(name: &str, labels: &BTreeMap<String, String>, bits: u64) -> String {
+    let mut s = hexs(name);
+    for (k, v) in labels {
+        s.push_str(&format!(" {}={}", hexs(k), hexs(v)));
+    }
+    if name.starts_with("__held") {
+        s.push_str(&format!(" bits={:016x}", bits));
+    }
+    s
+}
+
+// ---------------------------------------------------------------------------------------------
+// the quiet oracle: "a connected, reading client eventually holds everything that was accepted before the
+// emitters went quiet".
+//
+// Called when the transport thread has handled everything emitted so far and polls again (`settle`), with no
+// emission to follow.  Nothing but the exporter's own retry logic and genuine WRITABLE edges from the kernel can
+// move bytes from now on.  For every open client that reads, the bytes it has read must come to END with the last
+// frame that was fanned out while it was connected (the last frame of a batch is never discarded: drop-oldest
+// removes from the front and a batch never exceeds the limit), within `WAIT` (8 s; on loopback the bytes arrive
+// within milliseconds of the write, a timeout means nobody is going to send them).  What the client holds at that
+// moment is kept and judged with the other stream oracles at the end of the session (for a client that never had
+// a frame discarded: every emission made while it was connected).
+//
+// Excused (injection artefacts, recognised from the trace): a client whose LAST write was an injected `WouldBlock`
+// or an injected short write.  The real kernel answers those only when the socket's buffer is full and then owes a
+// WRITABLE edge; the injected ones park the frame behind a socket that is not full, so that no edge follows and
+// even the correct exporter waits for the next fan-out.  An injected `Interrupted` is NOT excused: EINTR says
+// nothing about the socket and the exporter has to retry by itself.
+
+struct QuietClient {
+    ci: usize,
+    /// why this client's parked frames are excused, if they are
+    artefact: Option<String>,
+    /// the last frame fanned out while it was connected (None: nothing was fanned out to it)
+    target: Option<Vec<u8>>,
+    /// what the client had read when the wait ended
+    data: Vec<u8>,
+    reached: bool,
+}
+
+struct QuietSnap {
+    step: usize,
+    waited: Duration,
+    clients: Vec<QuietClient>,
+}
+
+static QUIET_STRANDED: std::sync::atomic::AtomicUsize = std::sync::atomic::AtomicUsize::new(0);
+
+/// per token: (the exporter removed it, description of the last write if it was an injected refusal)
+fn quiet_scan(recs: &[(u16, Record)], port: u16) -> (HashSet<usize>, HashMap<usize, String>, Option<(usize, Vec<u8>)>) {
+    let mut gone = HashSet::new();
+    let mut last_attempt: HashMap<usize, usize> = HashMap::new();
+    let mut artefact: HashMap<usize, String> = HashMap::new();
+    let mut last_fanout = None;
+    for (i, (p, r)) in recs.iter().enumerate() {
+        if *p != port {
+            continue;
+        }
+        match r {
+            Record::Disconnect { token } => {
+                gone.insert(*token);
+            }
+            Record::WriteAttempt { token, buf } => {
+                last_attempt.insert(*token, buf.len());
+            }
+            Record::WriteResult { token, outcome, injected } => {
+                let len = last_attempt.get(token).copied().unwrap_or(0);
+                let refusal = match outcome {
+                    WriteOutcome::WouldBlock => Some("WouldBlock".to_string()),
+                    WriteOutcome::Ok(n) if *n < len => Some(format!("short write {}/{}", n, len)),
+                    _ => None,
+                };
+                match (refusal, *injected) {
+                    (Some(what), true) => {
+                        artefact.insert(*token, format!("its last write was an injected {} (the socket is not full, no WRITABLE edge is owed)", what));
+                    }
+                    _ => {
+                        artefact.remove(token);
+                    }
+                }
+            }
+            Record::Fanout { frames } => {
+                if let Some(f) = frames.last() {
+                    last_fanout = Some((i, f.clone()));
+                }
+            }
+            _ => {}
+        }
+    }
+    (gone, artefact, last_fanout)
+}
+
+fn quiet_check(clients: &mut [Client], log: &Log, port: u16, si: usize, unstall: bool, out: &mut Out) -> QuietSnap {
+    // no injected fault may be consumed by a write that a genuine WRITABLE edge triggers from now on
+    verif::clear_faults(port);
+    if unstall {
+        for c in clients.iter_mut() {
+            if c.end == End::Open {
+                spawn_reader(c);
+            }
+        }
+    }
+    let t0 = Instant::now();
+    // once the defect has been seen a few times in this process, do not spend the full wait on every session
+    let wait = if QUIET_STRANDED.load(Ordering::SeqCst) >= 2 { Duration::from_millis(1500) } else { WAIT };
+    let scan = |log: &Log| {
+        let g = log.recs.lock().unwrap();
+        quiet_scan(&g, port)
+    };
+    let (_, _, last_fanout) = scan(log);
+    let examined: Vec<usize> = (0..clients.len()).filter(|&i| clients[i].end == End::Open && clients[i].reader.is_some()).collect();
+    let target_of = |c: &Client| -> Option<Vec<u8>> {
+        match &last_fanout {
+            Some((pos, f)) if c.accepted_pos < *pos => Some(f.clone()),
+            _ => None,
+        }
+    };
+    loop {
+        let (gone, artefact, _) = scan(log);
+        let all = examined.iter().all(|&i| {
+            let c = &clients[i];
+            if gone.contains(&c.token) || artefact.contains_key(&c.token) {
+                return true;
+            }
+            match target_of(c) {
+                None => true,
+                Some(f) => c.data.lock().unwrap().ends_with(&f),
+            }
+        });
+        if all || t0.elapsed() > wait {
+            break;
+        }
+        std::thread::sleep(Duration::from_millis(2));
+    }
+    let (gone, artefact, _) = scan(log);
+    let mut snap = QuietSnap { step: si, waited: t0.elapsed(), clients: vec![] };
+    for &i in examined.iter() {
+        let c = &clients[i];
+        if gone.contains(&c.token) {
+            continue;
+        }
+        let target = target_of(c);
+        let data = c.data.lock().unwrap().clone();
+        let reached = target.as_ref().map_or(true, |f| data.ends_with(f));
+        let art = artefact.get(&c.token).cloned();
+        out.count(match (&art, reached) {
+            (Some(_), _) => "quiet check: client excused (frame parked by an injected WouldBlock / short write)",
+            (None, true) => "quiet check: reading client holds the last frame fanned out",
+            (None, false) => "quiet check: reading client is missing the last frame fanned out",
+        });
+        if art.is_none() && !reached {
+            QUIET_STRANDED.fetch_add(1, Ordering::SeqCst);
+        }
+        snap.clients.push(QuietClient { ci: i, artefact: art, target, data, reached });
+    }
+    snap
+}
+
 fn session(tag: &str, buffer: Option<usize>, script: &[Step], out: &mut Out) {
     out.case(tag);
     let log = log();
@@ -1138,6 +1383,7 @@ fn session(tag: &str, buffer: Option<usize>, script: &[Step], out: &mut Out) {
     let mut last_settle = 0usize;
     let emit_lock = Arc::new(Mutex::new(()));
     let mut held: Vec<Option<Held>> = vec![None; NHELD];
+    let mut quiets: Vec<QuietSnap> = vec![];
 
     // -- helpers as closures would fight the borrow checker; plain loops below
     let nsteps = script.len();
@@ -1440,6 +1686,15 @@ fn session(tag: &str, buffer: Option<usize>, script: &[Step], out: &mut Out) {
                     verif::inject(port, cl.token, *f);
                 }
             }
+            Step::Quiet { unstall } => {
+                out.count("step quiet (the emitters go quiet, reading clients must come to hold everything)");
+                if !settle(&rec, log, port) {
+                    hung = Some(format!("the transport thread did not finish handling its events within {:?}", WAIT));
+                    break;
+                }
+                last_settle = si;
+                quiets.push(quiet_check(&mut clients, log, port, si, *unstall, out));
+            }
             Step::Unstall { c } => {
                 if clients.is_empty() {
                     continue;
@@ -1466,6 +1721,9 @@ fn session(tag: &str, buffer: Option<usize>, script: &[Step], out: &mut Out) {
                 spawn_reader(c);
             }
         }
+        // the emitters are quiet now: before the final metric comes to anybody's rescue, every open client (all
+        // of them read from here on) must come to hold what was fanned out to it
+        quiets.push(quiet_check(&mut clients, log, port, nsteps, true, out));
         let open: Vec<usize> = clients.iter().filter(|c| c.end == End::Open).map(|c| c.token).collect();
         if !open.is_empty() {
             if !pace(&rec, buffer, 1) {
@@ -1811,16 +2069,7 @@ fn session(tag: &str, buffer: Option<usize>, script: &[Step], out: &mut Out) {
     }
     // identity → emission
     // (emissions through a long-lived handle share their key; the value tells them apart)
-    let ident = |name: &str, labels: &BTreeMap<String, String>, bits: u64| -> String {
-        let mut s = hexs(name);
-        for (k, v) in labels {
-            s.push_str(&format!(" {}={}", hexs(k), hexs(v)));
-        }
-        if name.starts_with("__held") {
-            s.push_str(&format!(" bits={:016x}", bits));
-        }
-        s
-    };
+    let ident = |name: &str, labels: &BTreeMap<String, String>, bits: u64| -> String { ident_of(name, labels, bits) };
     let mut by_ident: HashMap<String, usize> = HashMap::new();
     for (i, e) in emissions.iter().enumerate() {
         let labels: BTreeMap<String, String> = e.item.labels.iter().cloned().collect();
@@ -1963,6 +2212,64 @@ fn session(tag: &str, buffer: Option<usize>, script: &[Step], out: &mut Out) {
             }
             if sentinel_sent && !matches!(evs.last(), Some(Ev::Metric { name, .. }) if *name == sentinel.name) {
                 fail(out, &script_txt, "metric missing for a connected, reading client", format!("{}: the final metric is not the last frame of its stream", who));
+            }
+        }
+        // the quiet oracle: what this client held when the emitters had gone quiet (see `quiet_check`)
+        for q in quiets.iter() {
+            if hung.is_some() {
+                break;
+            }
+            let qc = match q.clients.iter().find(|x| x.ci == ci) {
+                Some(x) => x,
+                None => continue,
+            };
+            if qc.artefact.is_some() {
+                continue;
+            }
+            let when = if q.step == nsteps { "at the end of the script".to_string() } else { format!("at script step {}", q.step) };
+            let (qevs, _, _) = dec_stream(&qc.data);
+            let held_ids: HashSet<usize> = qevs
+                .iter()
+                .filter_map(|e| match e {
+                    Ev::Metric { name, labels, bits, .. } => by_ident.get(&ident(name, labels, *bits)).copied(),
+                    _ => None,
+                })
+                .collect();
+            let missing: Vec<String> = if had_drop.contains(&c.token) {
+                vec![]
+            } else {
+                emissions
+                    .iter()
+                    .enumerate()
+                    .filter(|(i, e)| e.step > c.accepted_step && e.step < q.step && !held_ids.contains(i))
+                    .map(|(_, e)| format!("thread {} #{} (step {}) {:?}", e.thread, e.seq, e.step, e.item.name))
+                    .collect()
+            };
+            if !qc.reached || !missing.is_empty() {
+                let last = qc.target.as_ref().map(|f| match dec_stream(f) {
+                    (evs, _, None) if evs.len() == 1 => match &evs[0] {
+                        Ev::Metric { name, labels, .. } => format!("metric {:?} {:?}", name, labels),
+                        Ev::Meta { name, .. } => format!("metadata {:?}", name),
+                    },
+                    _ => "<undecodable>".to_string(),
+                });
+                fail(
+                    out,
+                    &script_txt,
+                    "metric stranded when the emitters went quiet",
+                    format!(
+                        "{}: the emitters went quiet {} (transport thread back in poll, channel empty); the client is connected and reading, its last write was neither an injected WouldBlock nor an injected short write, yet after {:?} it holds {} bytes / {} metric frames which {} the last frame fanned out to it ({}); emissions made while it was connected that it does not hold: {} [{}]",
+                        who,
+                        when,
+                        q.waited,
+                        qc.data.len(),
+                        held_ids.len(),
+                        if qc.reached { "end with" } else { "do NOT end with" },
+                        last.unwrap_or_else(|| "none".to_string()),
+                        missing.len(),
+                        missing[..missing.len().min(6)].join("; ")
+                    ),
+                );
             }
         }
         let _ = complete_view;
